@@ -1390,11 +1390,22 @@ pub fn check(scn: &ServerScn, log: &[Ev], sim: &Sim, node: u8) -> Vec<Violation>
     }
 
     // ---- C11 / C04.still-counted: reported count against the interval model
+    // After a failure only the first sample (taken at the end of the failing poll) is still
+    // compared, and only if what failed was the write of a response: the request it answered has
+    // ended for the channel whether or not the transport took the response.
+    let sample_after_send_failure = match first_fail {
+        Some((f, Op::Send)) => samples.iter().find(|x| x.0 > f).map(|x| x.0),
+        _ => None,
+    };
     for (sseq, infl, timers) in &samples {
-        if over.map(|o| o < *sseq).unwrap_or(false) || first_fail.map(|f| f.0 < *sseq).unwrap_or(false) {
+        if over.map(|o| o < *sseq).unwrap_or(false) || (first_fail.map(|f| f.0 < *sseq).unwrap_or(false) && sample_after_send_failure != Some(*sseq)) {
             continue;
         }
-        let hi = m.incs.iter().filter(|i| i.tag != u64::MAX && m.possibly(i, *sseq)).count() as u64;
+        let mut hi = m.incs.iter().filter(|i| i.tag != u64::MAX && m.possibly(i, *sseq)).count() as u64;
+        if sample_after_send_failure == Some(*sseq) {
+            // requests read in the failing poll are tracked although they were never offered
+            hi += m.incs.iter().filter(|i| i.tag != u64::MAX && i.read_seq < *sseq && i.yielded.is_none() && i.resp.is_empty() && !m.possibly(i, *sseq)).count() as u64;
+        }
         if *infl > hi {
             let cancelled_counted = m.incs.iter().any(|i| i.cancel_read.map(|c| c < *sseq).unwrap_or(false) && i.resp.is_empty());
             let _ = cancelled_counted;
